@@ -15,7 +15,7 @@
 (*                carries one), with or without the trailing slash                          *)
 (*   SameLinks    same link entries in the same order: kind (link/search), display name,    *)
 (*                canonical target (Views!Canon).  Named after the model's explanation when *)
-(*                there is one: SameLinks_DefaultPort70, SameLinks_EmptySelectorHref        *)
+(*                there is one: SameLinks_EmptySelectorHref                                 *)
 (*   SameInfo     unless abstract_entries = unsupported: identical sequences incl. info     *)
 (*   SameSearch   got = s (SameSearch_FormDecodeReplace / SameSearch_PlusFlagAmbiguity when *)
 (*                the model predicts exactly the observed deviation)                        *)
@@ -59,10 +59,7 @@ LinksClause(p, v1, v2) ==
     IN IF d = {} THEN "SameLinks@" \o (IF Len(a) > n THEN a[n + 1].name ELSE b[n + 1].name)
        ELSE LET i == CHOOSE x \in d : \A y \in d : x <= y
                 nm == b[i].name
-            IN IF a[i].name = nm /\ EntNamed(nm) # {} /\ DefaultPort70(EntOf(nm)) /\ p \in UrlViews
-                  /\ CanonOfEntry(p, EntOf(nm)) = [kind |-> b[i].kind, host |-> b[i].host, port |-> b[i].port, sel |-> b[i].sel]
-               THEN "SameLinks_DefaultPort70@" \o nm
-               ELSE IF a[i].name = nm /\ EntNamed(nm) # {} /\ EmptySelectorHref(p, EntOf(nm))
+            IN IF a[i].name = nm /\ EntNamed(nm) # {} /\ EmptySelectorHref(p, EntOf(nm))
                THEN "SameLinks_EmptySelectorHref@" \o nm
                ELSE "SameLinks@" \o nm
 
